@@ -205,14 +205,20 @@ pub struct Link {
     /// dir[s] carries messages sent by side s
     pub dir: [Dir; 2],
     pub auto_pong: bool,
+    /// (side, length) of a message larger than anything a simulated case can legitimately produce: the run is cut short
+    pub oversize: Option<(Side, usize)>,
 }
+
+/// No simulated case writes, relays or sends more than ~200 KB in total; a single message beyond this bound can only come from
+/// an endpoint that puts bytes on the wire which nobody wrote (and would make the run take minutes)
+pub const MAX_SIM_MESSAGE: usize = 1 << 20;
 
 #[derive(Clone)]
 pub struct SharedLink(pub Arc<Mutex<Link>>);
 
 impl SharedLink {
     pub fn new(cap: [Option<usize>; 2]) -> Self {
-        SharedLink(Arc::new(Mutex::new(Link { dir: [Dir::new(cap[0]), Dir::new(cap[1])], auto_pong: true })))
+        SharedLink(Arc::new(Mutex::new(Link { dir: [Dir::new(cap[0]), Dir::new(cap[1])], auto_pong: true, oversize: None })))
     }
 }
 
@@ -255,6 +261,14 @@ impl WebSocket for SimWs {
         }
         if d.sink_closed {
             return Err(ws_err("sink already closed"));
+        }
+        if let Message::Binary(b) = &item {
+            if b.len() > MAX_SIM_MESSAGE {
+                let len = b.len();
+                self.log.push(Ev::Fault(format!("side {} sent a message of {len} bytes, more than all data ever written in this case: run cut short", self.side)));
+                l.oversize = Some((self.side, len));
+                return Ok(());
+            }
         }
         let lost = d.blackhole;
         self.log.push(Ev::Sent { side: self.side, msg: WMsg::from_message(&item), lost });
